@@ -260,11 +260,14 @@ def _child_command(world, cmd, probe=None):
     os.environ["EUPS_USERDATA"] = world.uds[cmd.get("user", "A")]
     events = []
     _install_audit(events)
+    state0 = {}
     if cmd.get("interpose"):
-        cmd["interpose"](cmd, world, events)
+        cmd["interpose"](cmd, world, events, state0)
     e = common.new_eups(flavor=cmd.get("flavor", "Linux"), force=bool(cmd.get("force")),
                         noaction=bool(cmd.get("noaction")))
     loaded = [sorted(e.versions[s].getFlavors()) for s in world.stacks]
+    view = view_of(world, e)
+    state0.update(loaded=loaded, view=view)
     op = cmd["op"]
     st = (lambda i: None if i is None else world.stacks[i])
     ret, exc = None, None
@@ -290,10 +293,25 @@ def _child_command(world, cmd, probe=None):
             raise ValueError("unknown op %r" % (op,))
     except Exception as ex:  # noqa: the outcome of the command; the events so far still count
         exc = (type(ex).__name__, str(ex)[:300])
-    out = {"loaded": loaded, "ret": None if ret is None else bool(ret), "events": [x for x in events if x], "exc": exc}
+    out = {"loaded": loaded, "view": view, "ret": None if ret is None else bool(ret),
+           "events": [x for x in events if x], "exc": exc}
     if probe and exc is None:
         out["probe"] = probe(world, e)
     return out
+
+
+def view_of(world, e):
+    """the in-memory stacks of an Eups instance (`ProductStack.lookup`: flavor -> name -> ProductFamily with
+    `.versions` and `.tags`), in the canonical form of a listing"""
+    decls, tags = [], []
+    for si, s in enumerate(world.stacks):
+        for fl, names in e.versions[s].lookup.items():
+            for n, fam in names.items():
+                for v, data in fam.versions.items():
+                    decls.append([si, n, v, fl, world.canon_path(data[0]), world.canon_table(n, data[0], data[1])])
+                for t, v in fam.tags.items():
+                    tags.append([si, t, n, fl, v])
+    return {"decls": sorted(decls, key=common.jdump), "tags": sorted(tags)}
 
 
 def run_command(world, cmd, probe=None):
@@ -435,7 +453,7 @@ def gen_history(rng, ncmds, users=("A",), crash=0.0, rmcache=0.0, query=0.0, noa
     return {"missing": missing, "cmds": cmds}
 
 
-def _crash_interposer(cmd, world, events):
+def _crash_interposer(cmd, world, events, state0):
     """In the child: die right after the k-th top-level Database mutation returns (between the database
     update and the cache update).  Module attribute replacement only."""
     import json
@@ -457,7 +475,8 @@ def _crash_interposer(cmd, world, events):
                     state["count"] += 1
                     if state["count"] == k:
                         with open(os.path.join(world.root, EVENT_FILE), "w") as fh:
-                            json.dump([x for x in events if x], fh)
+                            json.dump({"events": [x for x in events if x], "loaded": state0.get("loaded"),
+                                       "view": state0.get("view")}, fh)
                         os._exit(17)
         return w
     for m in ("declare", "undeclare", "assignTag", "unassignTag"):
@@ -488,13 +507,16 @@ def run_history(case, hash_noaction=True, probe=None, world_hook=None):
                     out, info = "Crashed", None
                     ef = os.path.join(w.root, EVENT_FILE)
                     with open(ef) as fh:
-                        events = json.load(fh)
+                        saved = json.load(fh)
                     os.remove(ef)
+                    events = saved["events"]
+                    rec["loaded"], rec["view"] = saved["loaded"], saved["view"]
                 rec["out"] = out
                 if isinstance(info, dict):
                     events = info.get("events")
                     if "loaded" in info:
                         rec["loaded"] = info["loaded"]
+                        rec["view"] = info.get("view")
                     if "probe" in info:
                         rec["probe"] = info["probe"]
                     if info.get("detail") and out.startswith("Other"):
